@@ -76,7 +76,12 @@ func (comp DefaultCompiler) Compile(stmts []*gripql.GraphStatement, opts *gdbi.C
 		ps.MarkTypes = opts.ExtensionMarkTypes
 	}
 
-	procs := make([]gdbi.Processor, 0, len(stmts))
+	procs := make([]gdbi.Processor, 0, len(stmts)+1)
+	if opts != nil && opts.PipelineExtension != gdbi.NoData {
+		// the stream being extended comes from a pipeline that loaded only the
+		// element data its own statements needed
+		procs = append(procs, &extensionLoader{db: comp.db, dataType: opts.PipelineExtension, markTypes: opts.ExtensionMarkTypes})
+	}
 
 	for i, gs := range stmts {
 		ps.SetCurStatment(i)
